@@ -62,7 +62,7 @@ def is_classmethod(fn):
 
 
 def memo_inventory(chk, cr, methods):
-    memos = {k: (g, node) for k, (g, node, kind) in MEMO.instance_memos(cr, "Crystal").items()}
+    memos = {k: (v[0], v[1]) for k, v in MEMO.instance_memos(cr, "Crystal").items()}
     chk.need(len(memos) >= 4, f"expected >= 4 memo attributes in class Crystal, found {sorted(memos)}")
     return memos
 
